@@ -88,6 +88,16 @@ fn codec_case<T: SerdeAPI + Clone>(id: String, schema: &str, obj: &T, tags: &[&s
         input: json!({"schema": schema, "n_floats": count_floats(&tree)}), oracle_fail: vec![], known: vec![], in_domain: true });
 }
 
+/// typed layer: the model's projection of the real tree equals the record printed from the object's fields
+fn embed_case(id: String, entry: &str, record: String, tree: &Node, tags: &[&str], sink: &mut Sink) {
+    let term = match coq_val(tree) { Some(t) => t, None => return };
+    if !nonfinite_paths(tree).is_empty() { return; }
+    let mut o = Outs::new(); o.b("projection_of_real_tree_equals_record", true);
+    let mut t: Vec<String> = tags.iter().map(|s| s.to_string()).collect(); t.push(format!("embed:{}", entry));
+    sink.put(Case { id, kind: "typed_embed".into(), coq: format!("{} {} {}", entry, record, term), outcome: Outcome::Ok(o), tags: t,
+        input: json!({"entry": entry}), oracle_fail: vec![], known: vec![], in_domain: true });
+}
+
 fn sub<'a>(n: &'a Node, path: &[&str]) -> Option<&'a Node> {
     let mut cur = n;
     for p in path {
@@ -189,6 +199,9 @@ pub fn shape_cases(r: &mut Rng, sink: &mut Sink) {
             let id = format!("shape/{}/{}", k, tag);
             if k < 6 { loco_shapes(&id, &l, &[tag], sink); }
             codec_case(format!("codec/{}/{}/Locomotive", k, tag), "s_loco", &l, &[tag], sink);
+            if matches!(l.loco_type, PowertrainType::ConventionalLoco(_) | PowertrainType::BatteryElectricLoco(_)) {
+                embed_case(format!("embed/{}/{}/Locomotive", k, tag), "x_loco_embed", coq_loco(&l), &to_node(&l), &[tag], sink);
+            }
             match &l.loco_type {
                 PowertrainType::ConventionalLoco(c) => {
                     codec_case(format!("codec/{}/{}/FuelConverter", k, tag), "s_fc", &c.fc, &[tag], sink);
@@ -210,10 +223,12 @@ pub fn shape_cases(r: &mut Rng, sink: &mut Sink) {
                 else { altrios_core::consist::consist_utils::PowerDistributionControlType::RESGreedy(altrios_core::consist::consist_utils::RESGreedy) };
             let con = Consist::new(locos, None, pdct);
             codec_case(format!("codec/{}/consist_fresh", k), "s_consist", &con, &["state:fresh"], sink);
+            embed_case(format!("embed/{}/consist_fresh", k), "x_consist_embed", coq_consist(&con), &to_node(&con), &["state:fresh"], sink);
             shape_case(format!("shape/{}/Consist_fresh", k), "s_consist", &to_node(&con), &[("state", con.state == ConsistState::default())], &["state:fresh"], sink);
             let st = consist_trace(r, con.clone(), 3);
             if let Some(c2) = st.iter().rev().find_map(|s| s.post.as_ref().ok().cloned()) {
                 codec_case(format!("codec/{}/consist_midrun", k), "s_consist", &c2, &["state:midrun"], sink);
+                embed_case(format!("embed/{}/consist_midrun", k), "x_consist_embed", coq_consist(&c2), &to_node(&c2), &["state:midrun"], sink);
                 shape_case(format!("shape/{}/Consist_midrun", k), "s_consist", &to_node(&c2), &[("state", c2.state == ConsistState::default())], &["state:midrun"], sink);
                 let sim = ConsistSimulation::new(c2, PowerTrace::new(vec![0.0, 1.0], vec![0.0, 1e5], vec![Some(true), None]), None);
                 codec_case(format!("codec/{}/consist_sim", k), "s_consistsim", &sim, &["state:midrun"], sink);
